@@ -1,17 +1,19 @@
 """C39 — the protocol hash is an injective function of the wire-relevant description.
 
-xh : ``compute_protocol_hash`` (real bytecode; ``hashlib`` := recording ideal sha256 reached through the
-     function's own ``import hashlib``; the describe batch := fake column accessors over symbolic rows).
-     Two descriptions A and B (protocol name + 0..2 rows each: name, method type, has_return, has_header,
-     is_exchange in {None, False, True}, params/result/header schema blobs):
+(a) xh : ``compute_protocol_hash`` (real bytecode; ``hashlib`` := recording ideal sha256 reached through the
+         function's own ``import hashlib``; describe batch := fake column accessors; field values := opaque atoms):
+         for every flag combination the sequence of update() arguments is header(protocol_name) followed by the
+         bytes of each row in batch order, each value passed untouched exactly once, no other column read, and it
+         equals — call by call — the piece list translated from the function's live AST.
+(b) bv : that piece list (translated at run time from the AST, validated against the real function with the real
+         sha256 on random describe batches) as bit-vector terms: header lemma and row lemma
+         ("equal bytes => equal fields and equal remainder"), hence by induction equal hashed stream => equal
+         wire-relevant tuple for any number of rows.  z3 decides both; cvc5 cross-checks the header lemma.
+(c) xh : header lemma again on the real bytecode with symbolic strings (independent of the translator).
 
-     * equal byte stream fed to sha256  =>  equal wire-relevant tuples (injective payload);
-     * the stream is a function of exactly those fields (any other column access is a model error) and
-       the digest returned is the ideal hash's digest of that stream.
-
-     Schema blobs are *assumed self-delimiting* (1-byte length prefix + content here; Arrow IPC messages
-     are length-prefixed) and never start with 0x1f; names contain neither 0x1e nor 0x1f (true of Python
-     identifiers).  SHA-256 collision resistance is the ideal-hash assumption.
+Schema blobs are *assumed self-delimiting* (1-byte length prefix + content; Arrow IPC messages are length-prefixed)
+and never start with the row marker; names contain neither 0x1e nor 0x1f (true of Python identifiers).
+SHA-256 collision resistance is the ideal-hash assumption.
 """
 
 from __future__ import annotations
@@ -21,7 +23,7 @@ import importlib
 import types
 
 import pyarrow as pa
-from engine.api import HarnessModelError, cond, pick
+from engine.api import QUICK, HarnessModelError, cond, pick, task
 
 isp = importlib.import_module("vgi_rpc.introspect")  # vgi_rpc.introspect (attribute) is a function of the same name
 from vgi_rpc.rpc._common import MethodType
@@ -30,7 +32,7 @@ PROPERTY = "C39"
 ENCODED = [isp.compute_protocol_hash]
 _NL = pick(2, 3)
 _CL = pick(1, 2)
-BOUNDS = "two descriptions of 0..2 rows; names/protocol names any strings <= %d chars without 0x1e/0x1f; schema blobs = length byte + <= %d arbitrary bytes; header blob or None" % (_NL, _CL)
+BOUNDS = "(a) 0..2 rows, every flag combination of the first row, arbitrary opaque values; (b) names/protocol name = any byte strings <= %d bytes without 0x1e/0x1f, blob content <= 2 bytes, remainder <= %d bytes, any number of rows by induction; (c) protocol names <= %d chars" % (pick(3, 4), pick(3, 4), _NL + 1)
 OUTSIDE = (
     "build_describe_batch <-> parse_describe_batch fidelity and cross-process stability of Arrow schema serialisation; "
     "the __describe__ exemption from the version gate (C09); SHA-256 itself; rows are taken in the order given (sorting by name is build_describe_batch's)"
@@ -60,9 +62,11 @@ class _Rec:
         return "digest-of-stream-%d" % _HOLD["streams"].index(self)
 
     def stream(self):  # type: ignore[no-untyped-def]
-        out = b""
+        """The hashed byte string, represented as text with one char per byte (latin-1 view): the symbolic
+        parts are handed to the hash as such text already, the literal parts are concrete bytes."""
+        out = ""
         for c in self.chunks:
-            out = out + c
+            out = out + (c.decode("latin-1") if isinstance(c, bytes) else c)
         return out
 
 
@@ -133,13 +137,44 @@ class _Batch:
         raise HarnessModelError("batch." + name + " not modelled")
 
 
-def _blob(content: bytes) -> bytes:
-    return bytes([len(content)]) + content
+class _Txt:
+    """A text value known only through its UTF-8 encoding (UTF-8 is injective, so equal bytes <=> equal text);
+    the encoding is kept in the one-char-per-byte view."""
+
+    __slots__ = ("b",)
+
+    def __init__(self, b):  # type: ignore[no-untyped-def]
+        self.b = b
+
+    def encode(self, *a):  # type: ignore[no-untyped-def]
+        if a and a[0] not in ("utf-8", "utf8"):
+            raise HarnessModelError("encoding other than UTF-8")
+        return self.b
+
+    def __eq__(self, o):  # type: ignore[no-untyped-def]
+        return isinstance(o, _Txt) and self.b == o.b
+
+    def __ne__(self, o):  # type: ignore[no-untyped-def]
+        return not self.__eq__(o)
+
+    def __hash__(self) -> int:
+        raise HarnessModelError("text used as a dict key")
+
+    def __getattr__(self, name: str):  # type: ignore[no-untyped-def]
+        raise HarnessModelError("str." + name + " not modelled")
+
+
+def _blob(content: str) -> str:
+    """Self-delimiting blob: one length byte + content (one char per byte)."""
+    return _LEN[len(content)] + content
+
+
+_LEN = [chr(i) for i in range(8)]
 
 
 def _row(name, mt, ret, hdr, exch, p, r, h, h_none):  # type: ignore[no-untyped-def]
     """Tuple in _COLUMNS order."""
-    return (name, _TYPES[mt], ret, _blob(p), _blob(r), hdr, None if h_none else _blob(h), None if exch == 0 else exch == 2)
+    return (_Txt(name), _TYPES[mt], ret, _blob(p), _blob(r), hdr, None if h_none else _blob(h), None if exch == 0 else exch == 2)
 
 
 def _stream_of(pname, rows):  # type: ignore[no-untyped-def]
@@ -152,66 +187,815 @@ def _stream_of(pname, rows):  # type: ignore[no-untyped-def]
 
 
 def _real_batch(rows) -> pa.RecordBatch:  # type: ignore[no-untyped-def]
+    # back from the one-char-per-byte view: names are UTF-8 text, blobs are bytes
+    def real(i, v):  # type: ignore[no-untyped-def]
+        if isinstance(v, _Txt):
+            return v.b.encode("latin-1", "replace").decode("utf-8", "replace")
+        if isinstance(v, str) and _COLUMNS[i].endswith("_ipc"):
+            return v.encode("latin-1", "replace")
+        return v
+
+    rows = [tuple(real(i, v) for i, v in enumerate(r)) for r in rows]
     cols = {c: [r[i] for r in rows] for i, c in enumerate(_COLUMNS)}
     return pa.RecordBatch.from_pydict(cols, schema=isp._DESCRIBE_SCHEMA)
-
-
-def _concrete(args: dict):  # type: ignore[no-untyped-def]
-    def rows(prefix: str, n: int):  # type: ignore[no-untyped-def]
-        out = []
-        for i in range(n):
-            g = lambda k: args[f"{prefix}{k}{i}"]  # noqa: E731
-            out.append(_row(g("n"), g("t"), g("r"), g("h"), g("x"), g("p"), g("q"), g("b"), g("z")))
-        return out
-
-    return (args["pa_"], rows("a", args["na"])), (args["pb_"], rows("b", args["nb"]))
-
-
-def _replay_injective(args: dict) -> str | None:
-    """Real compute_protocol_hash (real sha256, real pyarrow describe batches) on both descriptions."""
-    (pa_, ra), (pb_, rb) = _concrete(args)
-    if (pa_, ra) == (pb_, rb):
-        return None
-    ha = isp.compute_protocol_hash(pa_, _real_batch(ra))
-    hb = isp.compute_protocol_hash(pb_, _real_batch(rb))
-    if ha == hb:
-        return f"two different descriptions share protocol hash {ha[:16]}…: ({pa_!r}, {ra!r}) vs ({pb_!r}, {rb!r})"
-    return None
-
-
-_CLEAN = "\x1e\x1f"
 
 
 def _ok_name(s: str) -> bool:
     return "\x1e" not in s and "\x1f" not in s
 
 
-@cond(q=60, t=400, stubs=["hashlib := recording ideal sha256", "describe batch := fake column accessors"], encoded=[isp.compute_protocol_hash],
-      bound=BOUNDS, replay=_replay_injective, signature=lambda a, c: "C39:protocol-hash:payload-not-injective")
-def hash_payload_is_injective(pa_: str, pb_: str, na: int, nb: int,
-                              an0: str, at0: int, ar0: bool, ah0: bool, ax0: int, ap0: bytes, aq0: bytes, ab0: bytes, az0: bool,
-                              an1: str, at1: int, ar1: bool, ah1: bool, ax1: int, ap1: bytes, aq1: bytes, ab1: bytes, az1: bool,
-                              bn0: str, bt0: int, br0: bool, bh0: bool, bx0: int, bp0: bytes, bq0: bytes, bb0: bytes, bz0: bool,
-                              bn1: str, bt1: int, br1: bool, bh1: bool, bx1: int, bp1: bytes, bq1: bytes, bb1: bytes, bz1: bool) -> bool:
+def _ok_tail(t: bytes) -> bool:
+    """What can follow a header or a row in the stream: nothing, or the next row (which starts with 0x1f)."""
+    return len(t) == 0 or t[0] == "\x1f"
+
+
+_P0 = _Txt("P")
+
+
+def _chunks_of(pname, rows):  # type: ignore[no-untyped-def]
+    """The sequence of update() arguments (one-char-per-byte view)."""
+    del _HOLD["streams"][:]
+    digest = _hash(pname, _Batch(rows))
+    (rec,) = _HOLD["streams"]
+    if digest != rec.hexdigest():
+        raise HarnessModelError("digest returned is not the digest of the recorded stream")
+    return [(c.decode("latin-1") if isinstance(c, bytes) else c) for c in rec.chunks]
+
+
+def _join(chunks):  # type: ignore[no-untyped-def]
+    out = ""
+    for c in chunks:
+        out = out + c
+    return out
+
+
+def _row_stream(row):  # type: ignore[no-untyped-def]
+    """Bytes contributed by one row = stream(P0, [row]) minus stream(P0, [])."""
+    full = _chunks_of(_P0, [row])
+    hdr = _chunks_of(_P0, [])
+    if full[: len(hdr)] != hdr:
+        raise HarnessModelError("the row bytes do not follow the header bytes")
+    return _join(full[len(hdr) :])
+
+
+@cond(q=30, t=120, stubs=["hashlib := recording ideal sha256", "describe batch := fake column accessors"], encoded=[isp.compute_protocol_hash],
+      bound="protocol names <= %d chars, tails <= 2 bytes" % (_NL + 1), replay=lambda a: _replay_single_edits(a),
+      signature=lambda a, c: "C39:protocol-hash:header-not-injective")
+def header_is_injective_and_self_delimiting(pa_: str, pb_: str, ta: str, tb: str) -> bool:
     """
-    pre: 0 <= na <= 2 and 0 <= nb <= 2 and len(pa_) <= _NL and len(pb_) <= _NL and _ok_name(pa_) and _ok_name(pb_)
-    pre: len(an0) <= _NL and len(an1) <= _NL and len(bn0) <= _NL and len(bn1) <= _NL
-    pre: _ok_name(an0) and _ok_name(an1) and _ok_name(bn0) and _ok_name(bn1)
-    pre: 0 <= at0 < len(_TYPES) and 0 <= at1 < len(_TYPES) and 0 <= bt0 < len(_TYPES) and 0 <= bt1 < len(_TYPES)
-    pre: 0 <= ax0 <= 2 and 0 <= ax1 <= 2 and 0 <= bx0 <= 2 and 0 <= bx1 <= 2
-    pre: len(ap0) <= _CL and len(aq0) <= _CL and len(ab0) <= _CL and len(ap1) <= _CL and len(aq1) <= _CL and len(ab1) <= _CL
-    pre: len(bp0) <= _CL and len(bq0) <= _CL and len(bb0) <= _CL and len(bp1) <= _CL and len(bq1) <= _CL and len(bb1) <= _CL
+    pre: len(pa_) <= _NL + 1 and len(pb_) <= _NL + 1 and _ok_name(pa_) and _ok_name(pb_)
+    pre: len(ta) <= 2 and len(tb) <= 2 and _ok_tail(ta) and _ok_tail(tb)
     post: _
     """
-    rows_a = [_row(an0, at0, ar0, ah0, ax0, ap0, aq0, ab0, az0), _row(an1, at1, ar1, ah1, ax1, ap1, aq1, ab1, az1)][:na]
-    rows_b = [_row(bn0, bt0, br0, bh0, bx0, bp0, bq0, bb0, bz0), _row(bn1, bt1, br1, bh1, bx1, bp1, bq1, bb1, bz1)][:nb]
     try:
-        sa = _stream_of(pa_, rows_a)
-        sb = _stream_of(pb_, rows_b)
-    except HarnessModelError:
-        return False
+        ha = _stream_of(_Txt(pa_), [])
+        hb = _stream_of(_Txt(pb_), [])
     except Exception:  # noqa: BLE001
         return False
-    if sa != sb:
+    if ha + ta != hb + tb:
         return True
-    return pa_ == pb_ and rows_a == rows_b
+    return pa_ == pb_ and ta == tb
+
+
+def _replay_single_edits(args: dict) -> str | None:
+    """Real compute_protocol_hash: some single-point edit of a two-row description leaves the hash unchanged?"""
+    base = {"protocol_name": b"P", "rows": [dict(_DEFAULT_ROW), dict(_DEFAULT_ROW, name=b"n", has_header=True, header_schema_ipc=b"\x01h", is_exchange=False)]}
+    alts = {"name": [b"x", b""], "method_type": list(_TYPES), "has_return": [True, False], "has_header": [True, False], "is_exchange": [None, True, False],
+            "params_schema_ipc": [b"\x00", b"\x01a"], "result_schema_ipc": [b"\x00", b"\x01a"], "header_schema_ipc": [None, b"\x00", b"\x01h"]}
+    cands = [dict(base, protocol_name=b"Q"), dict(base, rows=base["rows"][:1]), dict(base, rows=base["rows"][::-1])]
+    for i in range(2):
+        for c, vs in alts.items():
+            for v in vs:
+                if v != base["rows"][i][c]:
+                    rows = [dict(r) for r in base["rows"]]
+                    rows[i][c] = v
+                    cands.append(dict(base, rows=rows))
+    for cand in cands:
+        out = _replay_pair(base, cand)
+        if out["verdict"] == "VIOLATION":
+            return out["detail"]
+    return None
+
+
+class _Atom:
+    """An opaque field value: only its identity is observable (so the claim holds for every value)."""
+
+    def __init__(self, label: str) -> None:
+        self.label = label
+
+    def encode(self, *a):  # type: ignore[no-untyped-def]
+        return _Atom(self.label + ".utf8") if not hasattr(self, "_enc") else self._enc
+
+    def __getattr__(self, name: str):  # type: ignore[no-untyped-def]
+        raise HarnessModelError("field value inspected: ." + name)
+
+
+def _atom_text(label: str) -> _Atom:
+    a = _Atom(label)
+    a._enc = _Atom(label + ".utf8")  # type: ignore[attr-defined]
+    return a
+
+
+@cond(q=60, t=200, stubs=["hashlib := recording ideal sha256", "describe batch := fake column accessors", "field values := opaque atoms"],
+      encoded=[isp.compute_protocol_hash], bound="0..2 rows; first row: every flag combination; second row: type free, other flags derived from the first row; arbitrary (opaque) names and blobs",
+      replay=lambda a: _replay_single_edits(a), signature=lambda a, c: "C39:protocol-hash:stream-shape")
+def hashed_sequence_is_header_then_each_row_in_order(n: int, at: int, ar: bool, ah: bool, ax: int, az: bool, bt: int) -> bool:
+    """
+    pre: 0 <= n <= 2 and 0 <= at < len(_TYPES) and 0 <= bt < len(_TYPES) and 0 <= ax <= 2
+    post: _
+    """
+    br, bh, bx, bz = ar, not ah, (ax + 1) % 3, not az  # second row: flags derived from the first (bounds the path count)
+    def row(tag, t, r, h, x, z):  # type: ignore[no-untyped-def]
+        return (_atom_text(tag + ".name"), _TYPES[t], r, _Atom(tag + ".params"), _Atom(tag + ".result"), h,
+                None if z else _Atom(tag + ".header"), None if x == 0 else x == 2)
+
+    r0, r1 = row("r0", at, ar, ah, ax, az), row("r1", bt, br, bh, bx, bz)
+    rows = [r0, r1][:n]
+    pn = _atom_text("pname")
+    try:
+        whole = _raw_chunks(pn, rows)
+        hdr = _raw_chunks(pn, [])
+        hdr0 = _raw_chunks(_atom_text("other"), [])
+        want = list(hdr)
+        for r in rows:
+            alone = _raw_chunks(_atom_text("other"), [r])
+            want = want + alone[len(hdr0):]
+    except Exception:  # noqa: BLE001
+        return False
+    # what is hashed for a row depends neither on the protocol name nor on its position or neighbours; rows follow the
+    # header in batch order; every opaque value is passed to the hash untouched (identity) and exactly once per row
+    if len(whole) != len(want) or len(hdr) != len(hdr0):
+        return False
+    for i in range(len(whole)):
+        x, y = whole[i], want[i]
+        if isinstance(x, _Atom) or isinstance(y, _Atom):
+            if x is not y:
+                return False
+        elif x != y:
+            return False
+    for r in rows:
+        for v in (r[0]._enc, r[3], r[4]) + ((r[6],) if r[6] is not None else ()):
+            if len([c for c in whole if c is v]) != 1:
+                return False
+    if len([c for c in whole if c is pn._enc]) != 1:
+        return False
+    # ... and it is, update() call by update() call, the piece list the bit-vector task proves injective
+    # (the AST translation evaluated on the same opaque values)
+    spec = _eval_pieces_on_atoms(pn, rows)
+    if len(spec) != len(whole):
+        return False
+    for i in range(len(whole)):
+        x, y = whole[i], spec[i]
+        if isinstance(x, _Atom) or isinstance(y, _Atom):
+            if x is not y:
+                return False
+        elif x != y:
+            return False
+    return True
+
+
+_PIECES: list = []
+
+
+def _eval_pieces_on_atoms(pn, rows):  # type: ignore[no-untyped-def]
+    if not _PIECES:
+        _PIECES.extend(_pieces_from_ast())
+    header, rowp = _PIECES
+
+    def ev(p, env):  # type: ignore[no-untyped-def]
+        k = p[0]
+        if k == "lit":
+            return [p[1]]
+        v = env[p[1]]
+        if k == "text":
+            return [v._enc if isinstance(v, _Atom) else v.encode()]
+        if k == "blob":
+            return [v]
+        if k == "optblob":
+            return [] if v is None else [v]
+        if k == "ifbool":
+            return [p[2] if v else p[3]]
+        return [p[2] if v is None else (p[3] if v else p[4])]
+
+    out: list = []
+    for p in header:
+        out.extend(ev(p, {"protocol_name": pn}))
+    for r in rows:
+        env = {c: r[i] for i, c in enumerate(_COLUMNS)}
+        for p in rowp:
+            out.extend(ev(p, env))
+    return out
+
+
+def _raw_chunks(pname, rows):  # type: ignore[no-untyped-def]
+    del _HOLD["streams"][:]
+    _hash(pname, _Batch(rows))
+    (rec,) = _HOLD["streams"]
+    return list(rec.chunks)
+
+
+# ---------------------------------------------------------------------------
+# bv: the hashed byte stream translated from the live AST into bit-vector terms; injectivity for 0..2 rows per side
+# ---------------------------------------------------------------------------
+
+import ast  # noqa: E402
+import inspect  # noqa: E402
+import textwrap  # noqa: E402
+
+
+class Unsupported(Exception):
+    pass
+
+
+def _column_kinds() -> dict:
+    """Column -> 'text' | 'bool' | 'optbool' | 'blob' | 'optblob', read from the live describe schema."""
+    out = {}
+    for f in isp._DESCRIBE_SCHEMA:
+        if pa.types.is_string(f.type) or pa.types.is_large_string(f.type):
+            out[f.name] = "text"
+        elif pa.types.is_boolean(f.type):
+            out[f.name] = "optbool" if f.name == "is_exchange" or not _required(f) else "bool"
+        elif pa.types.is_binary(f.type) or pa.types.is_large_binary(f.type):
+            out[f.name] = "optblob" if not _required(f) else "blob"
+    return out
+
+
+def _required(f) -> bool:  # type: ignore[no-untyped-def]
+    """Arrow fields are nullable by default; the describe schema marks its optional columns ``nullable=True``
+    explicitly, so read the declaration from the source of the field list."""
+    src = inspect.getsource(isp)
+    i = src.index(f'pa.field("{f.name}"')
+    decl = src[i : src.index("\n", i)]
+    return "nullable=True" not in decl
+
+
+def _pieces_from_ast():  # type: ignore[no-untyped-def]
+    """compute_protocol_hash -> (header pieces, per-row pieces).
+
+    Piece forms: ("lit", bytes) | ("text", field) | ("blob", field) | ("optblob", field)
+                 | ("ifbool", field, bytes_true, bytes_false) | ("ifopt", field, bytes_none, bytes_true, bytes_false)
+    where field is "protocol_name" or a describe column name.
+    """
+    fn = ast.parse(textwrap.dedent(inspect.getsource(isp.compute_protocol_hash))).body[0]
+    assert isinstance(fn, ast.FunctionDef)
+    if [a.arg for a in fn.args.args] != ["protocol_name", "batch"]:
+        raise Unsupported("signature changed")
+    kinds = _column_kinds()
+    cols: dict = {}  # local name -> column
+    hname = None
+    header: list = []
+    rowp: list = []
+
+    def modconst(name: str):  # type: ignore[no-untyped-def]
+        v = getattr(isp, name, None)
+        if isinstance(v, (str, bytes)):
+            return v
+        raise Unsupported(f"name {name} is not a module-level str/bytes constant")
+
+    def cell(node, loopvar, local):  # type: ignore[no-untyped-def]
+        """<col>[i].as_py()  or a local bound to it -> column name, else None."""
+        if isinstance(node, ast.Name) and node.id in local:
+            return local[node.id]
+        if (isinstance(node, ast.Call) and isinstance(node.func, ast.Attribute) and node.func.attr == "as_py" and not node.args
+                and isinstance(node.func.value, ast.Subscript) and isinstance(node.func.value.value, ast.Name)
+                and node.func.value.value.id in cols and isinstance(node.func.value.slice, ast.Name) and node.func.value.slice.id == loopvar):
+            return cols[node.func.value.value.id]
+        return None
+
+    def lit(node):  # type: ignore[no-untyped-def]
+        if isinstance(node, ast.Constant) and isinstance(node.value, bytes):
+            return node.value
+        raise Unsupported("branch value is not a bytes literal")
+
+    def piece(node, loopvar, local):  # type: ignore[no-untyped-def]
+        if isinstance(node, ast.Constant) and isinstance(node.value, bytes):
+            return ("lit", node.value)
+        if isinstance(node, ast.Name) and loopvar is None:
+            v = modconst(node.id)
+            if isinstance(v, bytes):
+                return ("lit", v)
+        if isinstance(node, ast.Call) and isinstance(node.func, ast.Attribute) and node.func.attr == "encode" and not node.args:
+            inner = node.func.value
+            if isinstance(inner, ast.Name) and inner.id == "protocol_name":
+                return ("text", "protocol_name")
+            if isinstance(inner, ast.Name) and inner.id not in local:
+                v = modconst(inner.id)
+                if isinstance(v, str):
+                    return ("lit", v.encode())
+            c = cell(inner, loopvar, local) if loopvar else None
+            if c is not None and kinds.get(c) == "text":
+                return ("text", c)
+            raise Unsupported("encode() of something else")
+        if loopvar:
+            c = cell(node, loopvar, local)
+            if c is not None and kinds.get(c) == "blob":
+                return ("blob", c)
+            if isinstance(node, ast.IfExp):
+                t = node.test
+                ct = cell(t, loopvar, local)
+                if ct is not None and kinds.get(ct) == "bool":
+                    return ("ifbool", ct, lit(node.body), lit(node.orelse))
+                if (isinstance(t, ast.Compare) and len(t.ops) == 1 and isinstance(t.ops[0], ast.Is) and isinstance(t.comparators[0], ast.Constant)
+                        and t.comparators[0].value is None):
+                    c0 = cell(t.left, loopvar, local)
+                    inner = node.orelse
+                    if c0 is not None and kinds.get(c0) == "optbool" and isinstance(inner, ast.IfExp) and cell(inner.test, loopvar, local) == c0:
+                        return ("ifopt", c0, lit(node.body), lit(inner.body), lit(inner.orelse))
+        raise Unsupported("update() argument " + ast.dump(node)[:80])
+
+    def is_update(st):  # type: ignore[no-untyped-def]
+        return (isinstance(st, ast.Expr) and isinstance(st.value, ast.Call) and isinstance(st.value.func, ast.Attribute)
+                and st.value.func.attr == "update" and isinstance(st.value.func.value, ast.Name) and st.value.func.value.id == hname
+                and len(st.value.args) == 1)
+
+    seen_loop = False
+    for st in fn.body:
+        if isinstance(st, ast.Expr) and isinstance(st.value, ast.Constant):
+            continue
+        if isinstance(st, ast.Import) and [a.name for a in st.names] == ["hashlib"]:
+            continue
+        if isinstance(st, ast.Assign) and len(st.targets) == 1 and isinstance(st.targets[0], ast.Name):
+            tgt, v = st.targets[0].id, st.value
+            if isinstance(v, ast.Call) and ast.unparse(v.func) == "hashlib.sha256" and not v.args:
+                hname = tgt
+                continue
+            if ast.unparse(v) == "batch.num_rows":
+                nname = tgt
+                continue
+            if isinstance(v, ast.Call) and ast.unparse(v.func) == "batch.column" and len(v.args) == 1 and isinstance(v.args[0], ast.Constant):
+                if v.args[0].value not in kinds:
+                    raise Unsupported(f"column {v.args[0].value!r} is not in the describe schema")
+                cols[tgt] = v.args[0].value
+                continue
+            raise Unsupported("assignment " + ast.unparse(st)[:60])
+        if is_update(st) and not seen_loop:
+            header.append(piece(st.value.args[0], None, {}))
+            continue
+        if isinstance(st, ast.For) and not seen_loop and isinstance(st.target, ast.Name) and ast.unparse(st.iter) == f"range({nname})" and not st.orelse:
+            seen_loop = True
+            lv = st.target.id
+            local: dict = {}
+            for b in st.body:
+                if is_update(b):
+                    rowp.append(piece(b.value.args[0], lv, local))
+                elif isinstance(b, ast.Assign) and len(b.targets) == 1 and isinstance(b.targets[0], ast.Name) and cell(b.value, lv, local):
+                    local[b.targets[0].id] = cell(b.value, lv, local)
+                elif (isinstance(b, ast.If) and not b.orelse and len(b.body) == 1 and is_update(b.body[0]) and isinstance(b.test, ast.Compare)
+                      and len(b.test.ops) == 1 and isinstance(b.test.ops[0], ast.IsNot) and isinstance(b.test.comparators[0], ast.Constant)
+                      and b.test.comparators[0].value is None):
+                    c = cell(b.test.left, lv, local)
+                    if c is None or kinds.get(c) != "optblob" or cell(b.body[0].value.args[0], lv, local) != c:
+                        raise Unsupported("conditional update of something else")
+                    rowp.append(("optblob", c))
+                else:
+                    raise Unsupported("loop statement " + ast.unparse(b)[:60])
+            continue
+        if isinstance(st, ast.Return) and ast.unparse(st.value) == f"{hname}.hexdigest()":
+            continue
+        raise Unsupported("statement " + ast.unparse(st)[:60])
+    if not seen_loop:
+        raise Unsupported("no row loop")
+    return header, rowp
+
+
+class _Enc:
+    """Positional bit-vector encoding of the hashed stream for one description (``S`` = z3 or cvc5.pythonic)."""
+
+    def __init__(self, S, tag: str, header, rowp, nrows_max: int, L: int, C: int, tail: int = 0):  # type: ignore[no-untyped-def]
+        self.S, self.tag, self.L, self.C = S, tag, L, C
+        self.valid: list = []
+        self.fields: dict = {}
+        bv = lambda name: S.BitVec(f"{tag}_{name}", 8)  # noqa: E731
+        self.c8 = lambda v: S.BitVecVal(v, 8)  # noqa: E731
+        self.nrows = bv("nrows")
+        self.valid.append(S.ULE(self.nrows, self.c8(nrows_max)))
+        pieces: list = []  # (n term, [byte terms], cap, static minimum length)
+        for p in header:
+            n, bs, cap = self.piece(p, "h", None)
+            pieces.append((n, bs, cap, len(p[1]) if p[0] == "lit" else 0))
+        for r in range(nrows_max):
+            present = S.UGT(self.nrows, self.c8(r))
+            for p in rowp:
+                n, bs, cap = self.piece(p, f"r{r}", r)
+                pieces.append((S.If(present, n, self.c8(0)), bs, cap, 0))
+        if tail:
+            # whatever follows in the stream: nothing, or further rows (each of which starts with the row marker)
+            n = S.BitVec(f"{tag}_tail_n", 8)
+            bs = [S.BitVec(f"{tag}_tail_{j}", 8) for j in range(tail)]
+            self.valid.append(S.ULE(n, self.c8(tail)))
+            self.valid.append(S.Or(n == self.c8(0), bs[0] == self.c8(rowp_marker(rowp))))
+            self.fields["t_tail"] = ("text", n, bs)
+            pieces.append((n, bs, tail, 0))
+        self.pieces = pieces
+        self.maxlen = sum(cap for _n, _b, cap, _m in pieces)
+        if self.maxlen > 250:
+            raise Unsupported("stream bound exceeds the 8-bit position encoding")
+        # positional concatenation
+        out = [self.c8(0)] * self.maxlen
+        off = self.c8(0)
+        lo = 0  # static bounds of the running offset
+        hi = 0
+        for n, bs, cap, minlen in pieces:
+            if cap:
+                for k in range(lo, min(self.maxlen, hi + cap)):
+                    kk = self.c8(k)
+                    idx = kk - off
+                    val = bs[cap - 1]
+                    for j in range(cap - 2, -1, -1):
+                        val = S.If(idx == self.c8(j), bs[j], val)
+                    inside = S.And(S.ULE(off, kk), S.ULT(idx, n))
+                    out[k] = S.If(inside, val, out[k])
+            off = off + n
+            lo += minlen
+            hi += cap
+        self.out, self.length = out, off
+
+    def text(self, key: str):  # type: ignore[no-untyped-def]
+        S = self.S
+        n = S.BitVec(f"{self.tag}_{key}_n", 8)
+        bs = [S.BitVec(f"{self.tag}_{key}_{j}", 8) for j in range(self.L)]
+        self.valid.append(S.ULE(n, self.c8(self.L)))
+        for j in range(self.L):  # names contain neither 0x1e nor 0x1f
+            self.valid.append(S.Or(S.UGE(self.c8(j), n), S.And(bs[j] != self.c8(0x1E), bs[j] != self.c8(0x1F))))
+        self.fields[key] = ("text", n, bs)
+        return n, bs, self.L
+
+    def blob(self, key: str, optional: bool):  # type: ignore[no-untyped-def]
+        """Self-delimiting blob = length byte + content (<= C bytes)."""
+        S = self.S
+        m = S.BitVec(f"{self.tag}_{key}_m", 8)
+        cs = [S.BitVec(f"{self.tag}_{key}_{j}", 8) for j in range(self.C)]
+        self.valid.append(S.ULE(m, self.c8(self.C)))
+        n = m + self.c8(1)
+        if optional:
+            none = S.Bool(f"{self.tag}_{key}_none")
+            n = S.If(none, self.c8(0), n)
+            self.fields[key] = ("optblob", none, m, cs)
+        else:
+            self.fields[key] = ("blob", m, cs)
+        return n, [m, *cs], self.C + 1
+
+    def piece(self, p, scope: str, row):  # type: ignore[no-untyped-def]
+        S = self.S
+        kind = p[0]
+        if kind == "lit":
+            n = self.c8(len(p[1]))
+            return n, [self.c8(b) for b in p[1]], len(p[1])
+        key = f"{scope}_{p[1]}"
+        if kind == "text" and p[1] == "method_type":
+            # a text field with a finite live value set
+            opts = [t.encode() for t in _TYPES]
+            idx = S.BitVec(f"{self.tag}_{key}_idx", 8)
+            self.valid.append(S.ULT(idx, self.c8(len(opts))))
+            cap = max(len(o) for o in opts)
+            n = self.c8(len(opts[-1]))
+            bs = [self.c8(opts[-1][j] if j < len(opts[-1]) else 0) for j in range(cap)]
+            for i in range(len(opts) - 2, -1, -1):
+                n = S.If(idx == self.c8(i), self.c8(len(opts[i])), n)
+                bs = [S.If(idx == self.c8(i), self.c8(opts[i][j] if j < len(opts[i]) else 0), bs[j]) for j in range(cap)]
+            self.fields[key] = ("enum", idx)
+            return n, bs, cap
+        if kind == "text":
+            return self.text(key)
+        if kind == "blob":
+            return self.blob(key, False)
+        if kind == "optblob":
+            return self.blob(key, True)
+        if kind == "ifbool":
+            f = S.Bool(f"{self.tag}_{key}")
+            self.fields[key] = ("bool", f)
+            return self._choice([(f, p[2])], p[3])
+        if kind == "ifopt":
+            none = S.Bool(f"{self.tag}_{key}_none")
+            v = S.Bool(f"{self.tag}_{key}")
+            self.fields[key] = ("optbool", none, v)
+            return self._choice([(none, p[2]), (v, p[3])], p[4])
+        raise Unsupported(kind)
+
+    def _choice(self, guarded, default: bytes):  # type: ignore[no-untyped-def]
+        S = self.S
+        cap = max([len(default)] + [len(b) for _g, b in guarded])
+        n = self.c8(len(default))
+        bs = [self.c8(default[j] if j < len(default) else 0) for j in range(cap)]
+        for g, b in reversed(guarded):
+            n = S.If(g, self.c8(len(b)), n)
+            bs = [S.If(g, self.c8(b[j] if j < len(b) else 0), bs[j]) for j in range(cap)]
+        return n, bs, cap
+
+
+def rowp_marker(rowp) -> int:  # type: ignore[no-untyped-def]
+    """First byte of every row (the row pieces must start with a non-empty literal)."""
+    if not rowp or rowp[0][0] != "lit" or not rowp[0][1]:
+        raise Unsupported("rows do not start with a literal marker")
+    return rowp[0][1][0]
+
+
+def _fields_equal(S, a: _Enc, b: _Enc, nrows_max: int):  # type: ignore[no-untyped-def]
+    """Equality of the two wire-relevant tuples (don't-care bytes beyond a length are ignored)."""
+    c8 = a.c8
+    conj = [a.nrows == b.nrows]
+    for key, fa in a.fields.items():
+        fb = b.fields[key]
+        kind = fa[0]
+        if kind == "text":
+            eq = S.And(fa[1] == fb[1], *[S.Or(S.UGE(c8(j), fa[1]), fa[2][j] == fb[2][j]) for j in range(len(fa[2]))])
+        elif kind == "enum":
+            eq = fa[1] == fb[1]
+        elif kind == "bool":
+            eq = fa[1] == fb[1]
+        elif kind == "optbool":
+            eq = S.And(fa[1] == fb[1], S.Or(fa[1], fa[2] == fb[2]))
+        elif kind == "blob":
+            eq = S.And(fa[1] == fb[1], *[S.Or(S.UGE(c8(j), fa[1]), fa[2][j] == fb[2][j]) for j in range(a.C)])
+        else:
+            body = S.And(fa[2] == fb[2], *[S.Or(S.UGE(c8(j), fa[2]), fa[3][j] == fb[3][j]) for j in range(a.C)])
+            eq = S.And(fa[1] == fb[1], S.Or(fa[1], body))
+        if key.startswith("r") and key[1].isdigit():
+            r = int(key[1 : key.index("_")])
+            eq = S.Or(S.ULE(a.nrows, c8(r)), eq)
+        conj.append(eq)
+    return S.And(*conj)
+
+
+def _concrete_stream(header, rowp, desc) -> bytes:
+    """Pieces evaluated on a concrete description {'protocol_name': str, 'rows': [ {col: value} ]} (real bytes)."""
+    def ev(p, env):  # type: ignore[no-untyped-def]
+        k = p[0]
+        if k == "lit":
+            return p[1]
+        v = env[p[1]]
+        if k == "text":
+            return v.encode()
+        if k == "blob":
+            return v
+        if k == "optblob":
+            return b"" if v is None else v
+        if k == "ifbool":
+            return p[2] if v else p[3]
+        return p[2] if v is None else (p[3] if v else p[4])
+
+    out = b"".join(ev(p, {"protocol_name": desc["protocol_name"]}) for p in header)
+    for row in desc["rows"]:
+        out += b"".join(ev(p, row) for p in rowp)
+    return out
+
+
+def _validate_pieces(header, rowp, n: int) -> dict:
+    """Translator validation: sha256 of the translated stream == the real function on real pyarrow describe batches."""
+    import hashlib
+    import random
+
+    rng = random.Random(39)
+    bad = []
+    for _ in range(n):
+        rows = []
+        for _r in range(rng.randint(0, 3)):
+            rows.append({
+                "name": "".join(rng.choice("abz_09é|-\x00") for _ in range(rng.randint(0, 4))), "method_type": rng.choice(_TYPES),
+                "has_return": rng.random() < 0.5, "has_header": rng.random() < 0.5, "is_exchange": rng.choice([None, True, False]),
+                "params_schema_ipc": bytes(rng.getrandbits(8) for _ in range(rng.randint(0, 5))),
+                "result_schema_ipc": bytes(rng.choice([0x1E, 0x1F, 0x30, 0xFF]) for _ in range(rng.randint(0, 5))),
+                "header_schema_ipc": rng.choice([None, b"", b"\x1f", bytes(rng.getrandbits(8) for _ in range(3))]),
+            })
+        desc = {"protocol_name": "".join(rng.choice("PQ|é") for _ in range(rng.randint(0, 3))), "rows": rows}
+        batch = pa.RecordBatch.from_pydict({c: [r[c] for r in rows] for c in _COLUMNS}, schema=isp._DESCRIBE_SCHEMA)
+        real = isp.compute_protocol_hash(desc["protocol_name"], batch)
+        mine = hashlib.sha256(_concrete_stream(header, rowp, desc)).hexdigest()
+        if real != mine:
+            bad.append(desc)
+            if len(bad) > 2:
+                break
+    return {"n": n, "n_disagree": len(bad), "disagreements": bad[:3]}
+
+
+_DEFAULT_ROW = {"name": b"m", "method_type": _TYPES[0], "has_return": True, "params_schema_ipc": b"\x00", "result_schema_ipc": b"\x00",
+                "has_header": False, "header_schema_ipc": None, "is_exchange": None}
+
+
+def _decode_model(S, m, enc: _Enc, nrows_max: int) -> dict:
+    """Concrete description from a solver model (z3)."""
+    import z3
+
+    def num(t):  # type: ignore[no-untyped-def]
+        return m.eval(t, True).as_long()
+
+    def boo(t):  # type: ignore[no-untyped-def]
+        return bool(z3.is_true(m.eval(t, True)))
+
+    n = num(enc.nrows)
+    desc: dict = {"protocol_name": b"P", "rows": [dict(_DEFAULT_ROW) for _ in range(n)]}
+    for key, f in enc.fields.items():
+        scope, col = key.split("_", 1)
+        if scope == "t":
+            desc["tail"] = bytes(num(b) for b in f[2][: num(f[1])])
+            continue
+        if f[0] == "text":
+            v = bytes(num(b) for b in f[2][: num(f[1])])
+        elif f[0] == "enum":
+            v = _TYPES[num(f[1])]
+        elif f[0] == "bool":
+            v = boo(f[1])
+        elif f[0] == "optbool":
+            v = None if boo(f[1]) else boo(f[2])
+        elif f[0] == "blob":
+            k = num(f[1])
+            v = bytes([k]) + bytes(num(b) for b in f[2][:k])
+        else:
+            k = num(f[2])
+            v = None if boo(f[1]) else bytes([k]) + bytes(num(b) for b in f[3][:k])
+        if scope == "h":
+            desc[col] = v
+        elif int(scope[1:]) < n:
+            desc["rows"][int(scope[1:])][col] = v
+    return desc
+
+
+def _replay_pair(da: dict, db: dict) -> dict:
+    """Real compute_protocol_hash on real pyarrow batches for both descriptions (names decoded as latin-1 text)."""
+    def real(d):  # type: ignore[no-untyped-def]
+        rows = [{c: (r[c].decode("utf-8") if isinstance(r[c], bytes) and c == "name" else r[c]) for c in _COLUMNS} for r in d["rows"]]
+        batch = pa.RecordBatch.from_pydict({c: [r[c] for r in rows] for c in _COLUMNS}, schema=isp._DESCRIBE_SCHEMA)
+        return isp.compute_protocol_hash(d["protocol_name"].decode("utf-8"), batch), rows
+
+    try:
+        (ha, ra), (hb, rb) = real(da), real(db)
+    except UnicodeDecodeError:
+        return {"verdict": "INCONCLUSIVE", "detail": f"solver witness uses a name that is not valid UTF-8: {da!r} vs {db!r}"}
+    if ha == hb and (da["protocol_name"], ra) != (db["protocol_name"], rb):
+        return {"verdict": "VIOLATION", "replayed": True, "signature": "C39:protocol-hash:payload-not-injective",
+                "detail": f"different wire-relevant descriptions share protocol hash {ha[:16]}…: {da!r} vs {db!r}"}
+    return {"verdict": "INCONCLUSIVE", "detail": f"solver witness did not reproduce on the real function: {da!r} vs {db!r}"}
+
+
+def _bv_query(S, header, rowp, nrows: int, L: int, C: int, timeout_s: float, tail: int = 0, exact_rows: bool = False):  # type: ignore[no-untyped-def]
+    import time as _t
+
+    a = _Enc(S, "A", header, rowp, nrows, L, C, tail)
+    b = _Enc(S, "B", header, rowp, nrows, L, C, tail)
+    s = S.Solver()
+    if exact_rows:
+        s.add(a.nrows == a.c8(nrows), b.nrows == b.c8(nrows))
+    if S.__name__.startswith("z3"):
+        s.set("timeout", int(timeout_s * 1000))
+    else:
+        s.setOption("tlimit-per", str(int(timeout_s * 1000)))
+    s.add(*a.valid)
+    s.add(*b.valid)
+    s.add(a.length == b.length)
+    for k in range(a.maxlen):
+        s.add(S.Or(S.UGE(a.c8(k), a.length), a.out[k] == b.out[k]))
+    s.add(S.Not(_fields_equal(S, a, b, nrows)))
+    t0 = _t.monotonic()
+    r = str(s.check())
+    dt = _t.monotonic() - t0
+    wit = None
+    if r == "sat" and S.__name__.startswith("z3"):
+        # prefer a witness whose names are ASCII (replayable as text); the verdict does not depend on it
+        s.push()
+        for enc in (a, b):
+            for f in enc.fields.values():
+                if f[0] == "text":
+                    s.add(*[S.ULT(x, enc.c8(0x80)) for x in f[2]])
+        if str(s.check()) != "sat":
+            s.pop()
+            s.check()
+        m = s.model()
+        wit = (_decode_model(S, m, a, nrows), _decode_model(S, m, b, nrows))
+    return r, dt, wit, a.maxlen
+
+
+def _validate_bv(header, rowp, n: int) -> dict:
+    """The positional encoding against plain concatenation, on solver-chosen descriptions: ask z3 for n distinct
+    models of one description, decode them, and compare the model's stream with the concrete stream."""
+    import z3
+
+    enc = _Enc(z3, "V", header, rowp, 2, 3, 2)
+    s = z3.Solver()
+    s.add(*enc.valid)
+    bad = []
+    done = 0
+    for i in range(n):
+        s.push()
+        s.add(enc.nrows == (i % 3))
+        s.add(enc.length >= min(enc.maxlen, 20 + 7 * (i % 9)))
+        if s.check() != z3.sat:
+            s.pop()
+            continue
+        m = s.model()
+        d = _decode_model(z3, m, enc, 2)
+        ln = m.eval(enc.length, True).as_long()
+        model_stream = bytes(m.eval(enc.out[k], True).as_long() for k in range(ln))
+        rows = [{c: (r[c].decode("latin-1") if c == "name" else r[c]) for c in _COLUMNS} for r in d["rows"]]
+        conc = _concrete_stream(header, rowp, {"protocol_name": d["protocol_name"].decode("latin-1"), "rows": rows})
+        # names: compare in the byte view (latin-1 text re-encoded as UTF-8 would differ for bytes >= 0x80)
+        conc_b = _concrete_bytes_view(header, rowp, d)
+        if model_stream != conc_b:
+            bad.append((d, model_stream, conc_b))
+        done += 1
+        s.pop()
+        del conc
+    return {"n": done, "n_disagree": len(bad), "disagreements": [repr(x)[:300] for x in bad[:2]]}
+
+
+def _concrete_bytes_view(header, rowp, d) -> bytes:
+    class _B:
+        def __init__(self, b):  # type: ignore[no-untyped-def]
+            self.b = b
+
+        def encode(self):  # type: ignore[no-untyped-def]
+            return self.b
+
+    rows = [{c: (_B(r[c]) if c == "name" else (_B(r[c].encode()) if c == "method_type" else r[c])) for c in _COLUMNS} for r in d["rows"]]
+    return _concrete_stream(header, rowp, {"protocol_name": _B(d["protocol_name"]), "rows": rows})
+
+
+@task(q=60, t=300, encoded=[isp.compute_protocol_hash], engine="bv",
+      stubs=["sha256 := ideal hash (the claim is about its input)", "schema blobs := length byte + content (self-delimiting)"],
+      bound="header lemma + row lemma (any number of rows by induction): names/protocol name <= %d bytes (no 0x1e/0x1f), blob content <= %d bytes, tails <= %d bytes" % (pick(3, 4), 2, pick(3, 4)))
+def hash_input_is_injective(budget: float, replay=None) -> dict:
+    """AST -> bit-vector encoding of the byte stream compute_protocol_hash feeds to sha256; z3 and cvc5 decide
+    'equal streams => equal wire-relevant tuples' for all descriptions in the bound."""
+    import z3
+
+    if replay is not None:
+        return _replay_pair(replay["a"], replay["b"])
+    try:
+        header, rowp = _pieces_from_ast()
+    except Unsupported as e:
+        return {"verdict": "INCONCLUSIVE", "detail": f"compute_protocol_hash uses a construct outside the translator: {e}", "queries": 0, "discharged": 0}
+    # every describe column must take part (a wire-relevant column left out of the hash is a defect by itself)
+    used = {p[1] for p in rowp if p[0] != "lit"}
+    missing = [c for c in _COLUMNS if c not in used]
+    if not any(p[0] == "text" and p[1] == "protocol_name" for p in header):
+        out = _replay_pair({"protocol_name": b"P", "rows": []}, {"protocol_name": b"Q", "rows": []})
+        out["detail"] = "protocol_name is not hashed; " + out.get("detail", "")
+        return out
+    if missing:
+        c0 = missing[0]
+        r2 = dict(_DEFAULT_ROW)
+        r2[c0] = {"name": b"n", "method_type": _TYPES[-1], "has_return": False, "params_schema_ipc": b"\x01a", "result_schema_ipc": b"\x01a",
+                  "has_header": True, "header_schema_ipc": b"\x00", "is_exchange": True}[c0]
+        out = _replay_pair({"protocol_name": b"P", "rows": [dict(_DEFAULT_ROW)]}, {"protocol_name": b"P", "rows": [r2]})
+        out["detail"] = f"column(s) {missing} are not hashed; " + out.get("detail", "")
+        return out
+    val = _validate_pieces(header, rowp, pick(300, 1000))
+    if val["n_disagree"]:
+        return {"verdict": "ERROR", "detail": f"AST->pieces translator disagrees with the real function: {val['disagreements']}"}
+    vbv = _validate_bv(header, rowp, pick(40, 150))
+    if vbv["n_disagree"] or vbv["n"] == 0:
+        return {"verdict": "ERROR", "detail": f"positional encoding disagrees with concatenation: {vbv}"}
+    # Injectivity by induction over the stream, each step decided by the solver on the translated pieces:
+    #   (H) header(p) + tail  == header(p') + tail'   =>  p == p'  and  tail == tail'
+    #   (R) row(r)    + tail  == row(r')    + tail'   =>  r == r'  and  tail == tail'
+    # where a tail is empty or begins with the row marker (every row starts with it: checked on the pieces).
+    # stream(D) = header + row_0 + ... + row_{n-1} holds by construction of the translation (validated above, and
+    # decided on the real bytecode by hashed_sequence_is_header_then_each_row_in_order).
+    rowp_marker(rowp)
+    L, C, T = pick(3, 4), 2, pick(3, 4)
+    cap = min(150.0, max(10.0, budget / 3))
+    log = []
+    queries = discharged = 0
+    solver_s = 0.0
+    verdicts = []
+    try:
+        import cvc5.pythonic as cv
+    except Exception:  # noqa: BLE001
+        cv = None
+    for lemma, kw in (("header", dict(header=header, nrows=0)), ("row", dict(header=[], nrows=1, exact_rows=True))):
+        rz, dz, wit, maxlen = _bv_query(z3, kw["header"], rowp, kw["nrows"], L, C, cap, tail=T, exact_rows=kw.get("exact_rows", False))
+        queries += 1
+        solver_s += dz
+        entry = {"lemma": lemma, "z3": rz, "z3_s": round(dz, 2), "stream_bytes_max": maxlen}
+        if cv is not None:
+            # second opinion; on the row lemma cvc5 1.x does not terminate within the cap here, so it is only asked for the header lemma (stated in the report)
+            if lemma == "header":
+                try:
+                    rc, dc, _w, _m = _bv_query(cv, kw["header"], rowp, kw["nrows"], L, C, cap if lemma == "header" else max(cap, 120.0), tail=T, exact_rows=kw.get("exact_rows", False))
+                except Exception as e:  # noqa: BLE001
+                    rc, dc = "error:" + type(e).__name__, 0.0
+                queries += 1
+                solver_s += dc
+                entry.update(cvc5=rc, cvc5_s=round(dc, 2))
+                if rc == "unsat":
+                    discharged += 1
+                if rc == "sat" and rz != "sat":
+                    verdicts.append("disagree")
+        log.append(entry)
+        if rz == "sat":
+            res = {"queries": queries, "discharged": discharged, "solver_s": round(solver_s, 2), "samples": log}
+            da, db = wit
+            for d in (da, db):
+                d.pop("tail", None)
+            res.update(_replay_pair(da, db))
+            res["cex"] = {"a": da, "b": db}
+            return res
+        if rz == "unsat":
+            discharged += 1
+        verdicts.append(rz)
+    res = {"queries": queries, "discharged": discharged, "solver_s": round(solver_s, 2), "samples": log,
+           "translator_validation": {"pieces": val, "positional": vbv}, "pieces": {"header": [repr(p) for p in header], "row": [repr(p) for p in rowp]}}
+    if verdicts == ["unsat", "unsat"]:
+        res["verdict"] = "CONFIRMED"
+        return res
+    res.update(verdict="INCONCLUSIVE", detail=f"lemma results {verdicts}: {log}")
+    return res
